@@ -65,6 +65,7 @@ Values ==
      Imml("lui", "hipos", 9, 0, "L1", Big), Imml("addi", "lopos", 9, 9, "L1", Big), Imml("lw", "lopos", 8, 9, "L2", Big),
      Imml("andi", "bare", 8, 8, "L1", 0), Imml("lw", "bare", 8, 2, "L2", 0),
      Lil(9, "bare", "L1", 0), Lil(5, "pos", "L2", Big), Lil(5, "pos", "L1", -2054), Lil(9, "pos", "L2", -2050),
+     Lil(9, "off", "L1", 0), Lil(5, "off", "L2", 0), Lil(8, "pos", "L1", -2056), Pins("mv", 9, 10),
      Dw("bare", "L1", 0), Dw("pos", "L2", Big), Dw("off", "L1", 0),
      Pj("call", "L1"), Li(9, 4660, 22136), Br("beq", 8, 0, "L2"),
      Align(4), Align(8), Data(1) >> \o GapItems
@@ -85,7 +86,8 @@ Literals ==
 
 \* branches / jumps to an ABSOLUTE address held in a constant (the distance grows when earlier items shrink)
 Abs ==
-  << Const("K1", 260), Const("K2", 2052), Const("K3", 1048578), I4, IC, Li(9, 0, 5), Li(9, 4660, 22136), Pj("call", "L1"), Lab("L1"),
+  << Const("K1", 260), Const("K2", 2052), Const("K3", 1048578), Const("K4", 39), I4, IC,
+     Lil(8, "offk", "K4", 39), Lil(9, "offk", "K2", 2052), Imml("addi", "offk", 8, 0, "K4", 39), Align(8), Li(9, 0, 5), Li(9, 4660, 22136), Pj("call", "L1"), Lab("L1"),
      Pjk("tail", "K3", 1048578), Pjk("call", "K3", 1048578), Pjk("call", "K1", 260),
      Brk("beq", 8, 0, "K1", 260), Brk("bne", 9, 0, "K1", 260), Brk("blt", 5, 6, "K1", 260), Jalk(0, "K2", 2052), Jalk(1, "K2", 2052),
      Align(4), Data(2) >>
@@ -127,7 +129,8 @@ Next == Extend
 Spec == Init /\ [][Next]_prog
 
 DefCount(its, t) == Cardinality({j \in 1..Len(its) : its[j].k = "lab" /\ its[j].t = t})
-Refs(its) == {its[j].t : j \in {x \in 1..Len(its) : its[x].t # "" /\ its[x].k \notin {"lab", "const", "brk", "jalk", "pjk"}}}
+ConstRef(it) == it.k \in {"brk", "jalk", "pjk"} \/ it.f = "offk"      \* items that name a constant, not a label
+Refs(its) == {its[j].t : j \in {x \in 1..Len(its) : its[x].t # "" /\ its[x].k \notin {"lab", "const"} /\ ~ConstRef(its[x])}}
 FirstDef(its, t) == CHOOSE j \in 1..Len(its) : its[j].k = "lab" /\ its[j].t = t
 WellFormed(its) ==
   /\ its # <<>>
@@ -136,9 +139,9 @@ WellFormed(its) ==
   \* label symmetry: if both are defined, L1 is the one defined first; L2 alone is never defined
   /\ DefCount(its, "L2") = 1 => (DefCount(its, "L1") = 1 /\ FirstDef(its, "L1") < FirstDef(its, "L2"))
   /\ Cardinality({j \in 1..Len(its) : its[j].k = "gap"}) <= MaxGapItems
-  /\ \A j \in 1..Len(its) : its[j].k \in {"brk", "jalk", "pjk"} =>
+  /\ \A j \in 1..Len(its) : ConstRef(its[j]) =>
         (\E q \in 1..Len(its) : its[q].k = "const" /\ its[q].t = its[j].t)
-  /\ \A t \in {"K1", "K2", "K3"} : Cardinality({j \in 1..Len(its) : its[j].k = "const" /\ its[j].t = t}) <= 1
+  /\ \A t \in {"K1", "K2", "K3", "K4"} : Cardinality({j \in 1..Len(its) : its[j].k = "const" /\ its[j].t = t}) <= 1
   \* a program that ends in a label-free tail after its last reference/label adds nothing: the last item matters
   /\ its[Len(its)].k \notin {"data"}
 
